@@ -92,9 +92,13 @@ def withPlugins (base : Res) (plugins : List Res) : Res := plugins.foldl Res.mer
 
 /-! ### get_aggregated_resources -/
 
-/-- what a detector's `detect()` did: returned a resource, or raised (with its `raise_on_error` flag) -/
+/-- what a detector's `detect()` did: returned a resource, returned something that is not a resource (`None`, a
+    dict), or raised an `Exception` (with its `raise_on_error` flag).  NOT representable: `BaseException`s
+    (KeyboardInterrupt / SystemExit escape the `except Exception` and meet the `finally` with a stale or unbound
+    `detected_resource`), a detector without `raise_on_error`, time-outs — outside the model and the generators. -/
 inductive DetOut
   | ok (r : Res)
+  | notResource
   | fails (raiseOnError : Bool)
 
 /-- `_EMPTY_RESOURCE` -/
@@ -102,11 +106,14 @@ def emptyRes : Res := Res.new [] none
 
 /-- `get_aggregated_resources(detectors, initial)` from the (initial or created) resource `base`: the results are
     merged in detector order; a detector that raised counts as the empty resource — unless it asks for the exception
-    to be re-raised (`.error`; the `finally` merge before it is not observable).  Hand-written reading of the loop
-    (futures/thread pool are not modelled: results are consumed in list order whatever order they complete in). -/
+    to be re-raised (`.error`; the `finally` merge before it is not observable); a result that is not a resource
+    makes the `finally` merge raise AttributeError, whatever `raise_on_error` says.  HAND-WRITTEN reading of the loop
+    whose text is `Extracted.Attributes.aggregateSource` (futures / thread pool are not modelled: results are consumed
+    in list order whatever order they complete in). -/
 def aggregate (base : Res) : List DetOut → Except String Res
   | [] => .ok base
   | .ok r :: rest => aggregate (base.merge r) rest
+  | .notResource :: _ => .error "AttributeError"
   | .fails false :: rest => aggregate (base.merge emptyRes) rest
   | .fails true :: _ => .error "detector exception"
 
